@@ -186,7 +186,7 @@ impl ClientManager {
                     }
                 })
                 .collect::<Vec<_>>();
-            for index in indexes_to_remove {
+            for index in indexes_to_remove.into_iter().rev() {
                 client.consumer_groups.remove(index);
             }
         }
@@ -208,7 +208,7 @@ impl ClientManager {
                     }
                 })
                 .collect::<Vec<_>>();
-            for index in indexes_to_remove {
+            for index in indexes_to_remove.into_iter().rev() {
                 client.consumer_groups.remove(index);
             }
         }
